@@ -5,8 +5,8 @@
 #   without the patch: demo PASSES
 set -u
 D="$(readlink -f "$1")"; FEAT="${2:-}"
-BOX=/tmp/mutbox
-exec 9>/tmp/mutbox.lock; flock 9
+BOX="${BOX:-/tmp/mutbox}"
+exec 9>"$BOX.lock"; flock 9
 mkdir -p $BOX
 if [ ! -e $BOX/repo/.git ]; then git -C /repo worktree prune; git -C /repo worktree add --detach -f $BOX/repo HEAD -q || exit 2; fi
 R=$BOX/repo
